@@ -57,6 +57,24 @@ SEEDS = {
 }
 
 
+NOTES = {
+    'C02-1': 'evaluated at commit c30ce70: 2 of the reported violations were the 24-bit array element finding that the same run '
+             'would also report on the unchanged tree (later listed as KF-C05-array-element-not-range-checked); 3 are due to the seed',
+    'C02-2': 'evaluated at commit c30ce70: 2 of the 3 reported violations were the 24-bit array element finding (see C02-1); 1 is due to the seed',
+    'C05-1': 'MISSED: needs elements of >= 256 octets behind an 8-bit _elementsize_ field; the value bound is K <= 3 elements of a few '
+             'octets and no windowed-length harness exists for element-size fields (element-size arrays are heavy: > 25 min per harness)',
+    'C06-1': 'MISSED: the specialize harness of a family with a size discriminant (payload.len() in the match tuple) does not finish '
+             'under CBMC (180 s cap in the quick tier, also not within 1500 s when run alone); reported as UNDECIDED, never as held',
+    'C12-1': 'MISSED BY SCOPE: line_starts computation in parse_inline goes through the parser; only SourceLocation::new is claimed',
+    'C12-2': 'MISSED BY SCOPE: grammar change; no clause through the pest grammar is claimed (DESIGN.md §4 C12, §5)',
+    'C07-2': 'first missed by C07 (its Python side only covered descriptions selected on the Rust side); caught after the Python '
+             'side was extended to always include the inheritance family; C13 caught it from the start',
+    'C15-1': 'first evaluation did not reproduce natively because the replay runner generated decode arms for enum names; fixed',
+    'C18-1': 'the solver first returned the degenerate empty input, on which the violated law is not observable natively; the law now '
+             'ignores the pointer of an empty slice so that a non-empty counterexample is produced',
+}
+
+
 def main():
     evaldir = sys.argv[1] if len(sys.argv) > 1 else None     # directory holding the worktrees' verif_<check>.log copies
     for sid, (prop, what, needs) in SEEDS.items():
@@ -91,6 +109,8 @@ def main():
                                 'how': 'scratch worktree under /tmp, patch applied with git apply, reverted afterwards'},
             'checks_run_against_it': runs,
         }
+        if sid in NOTES:
+            meta['note'] = NOTES[sid]
         with open(os.path.join(d, 'meta.json'), 'w') as f:
             json.dump(meta, f, indent=1)
     print('meta written')
